@@ -60,8 +60,11 @@ type spec struct {
 	Rows        int    `json:"rows"`
 	Cols        int    `json:"cols"`
 	// the reference terminal the bytes are interpreted on
+	// (the kitty keyboard protocol keeps one flag stack per screen: Kitty0 is the stack of the
+	// main screen before start-up, KittyAlt0 the one of the alternate screen)
 	HonoursInband bool   `json:"honours_inband"`
 	Kitty0        []int  `json:"kitty0"`
+	KittyAlt0     []int  `json:"kitty_alt0"`
 	Ops           []op   `json:"ops"`
 	Class         string `json:"class,omitempty"`
 }
@@ -342,9 +345,9 @@ func (s *spec) failTerm(b []byte) string {
 	if s.CursorReply >= 0 && s.CursorReply <= 6 {
 		ustyle = s.CursorReply
 	}
-	return fmt.Sprintf("mkFail (mkOpts %s false false false false) (mkFlags %s %s) %s %s %s %s %s %s\n %s",
+	return fmt.Sprintf("mkFail (mkOpts %s false false false false) (mkFlags %s %s) %s %s %s %s %s %s %s\n %s",
 		hx.Bool(s.NoMouse), strings.Join(ds, " "), hx.Bool(s.NoMouse), hx.Z(int64(s.CSIuMask)), hx.Bool(s.ReportKB),
-		coqStr(appid), hx.Z(int64(ustyle)), hx.Bool(s.HonoursInband), hx.IntList(s.Kitty0), coqSegs(b))
+		coqStr(appid), hx.Z(int64(ustyle)), hx.Bool(s.HonoursInband), hx.IntList(s.Kitty0), hx.IntList(s.KittyAlt0), coqSegs(b))
 }
 
 // ---------- Coq printing ----------
@@ -465,9 +468,9 @@ func (s *spec) term(ob observation) string {
 	for _, k := range capOrder {
 		caps = append(caps, hx.Bool(ob.Caps[k]))
 	}
-	return fmt.Sprintf("mkCase %s %s %s %s %s %s %s %s %s %s\n %s\n %s\n %s %s",
+	return fmt.Sprintf("mkCase %s %s %s %s %s %s %s %s %s %s %s\n %s\n %s\n %s %s",
 		opts, flags, hx.Z(int64(s.CSIuMask)), hx.Bool(s.ReportKB), coqStr(appid), hx.Z(int64(ustyle)),
-		hx.Z(int64(s.Rows)), hx.Z(int64(s.Cols)), hx.Bool(s.HonoursInband), hx.IntList(s.Kitty0),
+		hx.Z(int64(s.Rows)), hx.Z(int64(s.Cols)), hx.Bool(s.HonoursInband), hx.IntList(s.Kitty0), hx.IntList(s.KittyAlt0),
 		hx.List(ops), hx.List(obs), hx.List(caps), hx.Z(int64(ob.KFlags)))
 }
 
@@ -596,6 +599,9 @@ func baseSpec(r *rand.Rand, combo int, noMouse bool) *spec {
 	if r.Intn(3) == 0 {
 		s.Kitty0 = []int{r.Intn(32)}
 	}
+	if r.Intn(3) == 0 {
+		s.KittyAlt0 = []int{r.Intn(32)}
+	}
 	return s
 }
 
@@ -709,8 +715,32 @@ func main() {
 			s.CSIuMask, s.ReportKB = km, rep
 			s.NoKitty = km == 8 && rep
 			s.Kitty0 = []int{5, 1}
+			s.KittyAlt0 = []int{3}
 			s.Ops = genOps(r, s, 4, "close")
 			add(s, "kittyflags")
+		}
+	}
+	// 3b. Suspend/Resume cycles on a terminal with the kitty keyboard protocol: the flags must be
+	// pushed on (and popped from) the stack of the alternate screen in every cycle, whatever
+	// the two stacks held before
+	for i, tl := range [][]string{
+		{"suspend", "resume", "close"},
+		{"suspend", "resume", "suspend"},
+		{"render", "suspend", "resume", "render", "suspend", "resume", "close"},
+		{"suspend", "show", "resume", "render", "close", "close"},
+	} {
+		for _, stacks := range [][2][]int{{nil, nil}, {{5, 1}, nil}, {nil, {3}}, {{7}, {9, 2}}} {
+			s := baseSpec(r, r.Intn(256)|1<<4, i%2 == 1) // kitty keyboard advertised
+			s.Kitty0, s.KittyAlt0 = stacks[0], stacks[1]
+			s.Ops = nil
+			for _, k := range tl {
+				o := op{K: k}
+				if k == "show" {
+					o.Style = 3
+				}
+				s.Ops = append(s.Ops, o)
+			}
+			add(s, "kitty-resume-cycle")
 		}
 	}
 	// 4. a terminal that implements ?2048 but does not send the immediate report
@@ -797,6 +827,6 @@ func main() {
 	}
 	extra := map[string]interface{}{"child_processes": spawned, "harness_seconds": time.Since(t0).Seconds(),
 		"capability_subsets": "all 256 subsets of {sync, unicode, colortheme, inband, kittykb, sixel, explicitwidth, osc176} x DisableMouse"}
-	cfg.Write("C04", "sessions on a real Vaxis over hx.FakeConsole: every subset of the 8 mode-relevant capabilities x DisableMouse with a generated session (frames with styled/hyperlinked cells, Render, Refresh, ShowCursor/HideCursor, SetMouseShape, SetAppID, Suspend/Resume cycles) ending in Close or Suspend; quirk environment variables; cursor-style replies; kitty flag options; a terminal that implements ?2048 silently; SIGTERM and a panic in the input goroutine in child processes; Suspend/Close while suspended (recorded finding); New on a console whose size cannot be read (error path of New). non-trivial = some capability/option-conditional branch of enableModes/disableModes is taken or the session has a Suspend/Resume cycle; distinct by the whole case",
+	cfg.Write("C04", "sessions on a real Vaxis over hx.FakeConsole: every subset of the 8 mode-relevant capabilities x DisableMouse with a generated session (frames with styled/hyperlinked cells, Render, Refresh, ShowCursor/HideCursor, SetMouseShape, SetAppID, Suspend/Resume cycles) ending in Close or Suspend; quirk environment variables; cursor-style replies; kitty flag options; fixed Suspend/Resume cycles on kitty-keyboard terminals with every combination of empty / non-empty main- and alternate-screen flag stacks; a terminal that implements ?2048 silently; SIGTERM and a panic in the input goroutine in child processes; Suspend/Close while suspended (recorded finding); New on a console whose size cannot be read (error path of New). non-trivial = some capability/option-conditional branch of enableModes/disableModes is taken or the session has a Suspend/Resume cycle; distinct by the whole case",
 		[]*hx.Stream{st, sf}, extra, direct)
 }
